@@ -12,6 +12,7 @@ import (
 	"strconv"
 	"strings"
 	"sync"
+	"sync/atomic"
 
 	"github.com/pion/transport/v3"
 )
@@ -38,8 +39,7 @@ var (
 
 func newMACAddress() net.HardwareAddr {
 	b := make([]byte, 8)
-	binary.BigEndian.PutUint64(b, macAddrCounter)
-	macAddrCounter++
+	binary.BigEndian.PutUint64(b, atomic.AddUint64(&macAddrCounter, 1)-1)
 
 	return b[2:]
 }
